@@ -580,3 +580,69 @@ func tableTypes() []hs.Type {
 		hs.TOpt(hs.TOpt(hs.TInt)),
 	}
 }
+
+// deepTypes: depth is not bounded by the property: chains far deeper than the random generator's 3-4 levels.
+func deepTypes() []hs.Type {
+	f := func(n string, t hs.Type) hs.Field { return hs.Field{Name: n, T: t} }
+	return []hs.Type{
+		deepChain(24, "list", hs.TInt),
+		deepChain(40, "object", hs.TStr),
+		deepChain(33, "mixed", hs.TObj(f("zqa", hs.TInt), f("zqb", hs.TOpt(hs.TFloat)))),
+		deepChain(18, "mixed", hs.TList(hs.TBool)),
+	}
+}
+
+// singlePath builds a conforming value with one element per list (a deep type with several elements per level would
+// be exponentially large).
+func singlePath(t hs.Type) hs.Value {
+	switch t.K {
+	case hs.KList:
+		return &hs.ListV{Elems: []hs.Value{singlePath(*t.Elem)}}
+	case hs.KOpt:
+		return hs.OptV{Inner: singlePath(*t.Elem)}
+	case hs.KObj:
+		o := hs.NewObj(false)
+		for _, fl := range t.Fields {
+			o.Set(fl.Name, singlePath(fl.T))
+		}
+		return o
+	case hs.KInt:
+		return hs.IntV(7)
+	case hs.KFloat:
+		return hs.FloatV(2.5)
+	case hs.KBool:
+		return hs.BoolV(true)
+	case hs.KStr:
+		return hs.StrV("leaf")
+	}
+	panic("singlePath " + t.Src())
+}
+
+// deepChain wraps leaf into n levels of lists / one-field objects / (mixed: list, object, list of objects, option).
+func deepChain(n int, kind string, leaf hs.Type) hs.Type {
+	t := leaf
+	for i := 0; i < n; i++ {
+		switch {
+		case kind == "list":
+			t = hs.TList(t)
+		case kind == "object":
+			t = hs.TObj(hs.Field{Name: "zq" + string(rune('a'+i%3)), T: t})
+		default:
+			switch i % 4 {
+			case 0:
+				t = hs.TList(t)
+			case 1:
+				t = hs.TObj(hs.Field{Name: "zqn", T: t}, hs.Field{Name: "zqk", T: hs.TInt})
+			case 2:
+				t = hs.TList(t)
+			default:
+				if t.K != hs.KOpt {
+					t = hs.TOpt(t)
+				} else {
+					t = hs.TList(t)
+				}
+			}
+		}
+	}
+	return t
+}
